@@ -357,6 +357,11 @@ func SearchOnReplay(name string) {}
 // racing section many times natively (see their comments).
 func PreemptAtSync(n int) {}
 
+// PoolReuse makes the engine's sync.Pool keep what is Put and hand the most recently returned
+// object out again on the next Get (what a single P does natively when no GC intervenes);
+// without it the engine's Get always calls New, which hides aliasing through a pool.
+func PoolReuse() {}
+
 // Preempt is an explicit preemption point.
 func Preempt() { runtime.Gosched() }
 
